@@ -835,28 +835,42 @@ func (t *transitiveClosure) addExtensions(
 	if !opts.includeKnownExtensions {
 		return nil // nothing to do
 	}
-	for e, mode := range t.elements {
-		if mode != inclusionModeExplicit {
-			// we only collect extensions for messages that are directly reachable/referenced.
-			continue
-		}
-		msgDescriptor, ok := e.(*descriptorpb.DescriptorProto)
-		if !ok {
-			// not a message, nothing to do
-			continue
-		}
-		descriptorInfo := imageIndex.ByDescriptor[msgDescriptor]
-		for _, extendsDescriptor := range imageIndex.NameToExtensions[descriptorInfo.fullName] {
-			if mode := t.elements[extendsDescriptor]; mode == inclusionModeExcluded {
-				// This extension field is excluded.
+	// Adding an extension can add further messages to the closure. Their known
+	// extensions are added as well, so repeat until no new message shows up.
+	seen := make(map[*descriptorpb.DescriptorProto]struct{})
+	for {
+		var msgDescriptors []*descriptorpb.DescriptorProto
+		for e, mode := range t.elements {
+			if mode != inclusionModeExplicit {
+				// we only collect extensions for messages that are directly reachable/referenced.
 				continue
 			}
-			if err := t.addElement(extendsDescriptor, "", false, imageIndex, opts); err != nil {
-				return err
+			msgDescriptor, ok := e.(*descriptorpb.DescriptorProto)
+			if !ok {
+				// not a message, nothing to do
+				continue
+			}
+			if _, ok := seen[msgDescriptor]; !ok {
+				seen[msgDescriptor] = struct{}{}
+				msgDescriptors = append(msgDescriptors, msgDescriptor)
+			}
+		}
+		if len(msgDescriptors) == 0 {
+			return nil
+		}
+		for _, msgDescriptor := range msgDescriptors {
+			descriptorInfo := imageIndex.ByDescriptor[msgDescriptor]
+			for _, extendsDescriptor := range imageIndex.NameToExtensions[descriptorInfo.fullName] {
+				if mode := t.elements[extendsDescriptor]; mode == inclusionModeExcluded {
+					// This extension field is excluded.
+					continue
+				}
+				if err := t.addElement(extendsDescriptor, "", false, imageIndex, opts); err != nil {
+					return err
+				}
 			}
 		}
 	}
-	return nil
 }
 
 func (t *transitiveClosure) exploreCustomOptions(
